@@ -22,7 +22,7 @@ def wf(prop, graph, items, buf, mx, kind="func", mode="dpor", oracles=(), events
     job = {"id": jid, "prop": prop, "scen": scen, "mode": mode, "budget": kw.pop("budget", budget(tier)), "oracles": list(oracles), "events_dep": events_dep, "force_all": -1}
     job.update(kw)
     # scenarios that can also be run natively (real runtime, real bash, un-instrumented scipipe)
-    if graph not in ("tasks", "slots", "tasks2wf", "nested", "gjoin", "gjoin2") and mode == "dpor" and not job.get("crash") and not job.get("race") and not scen.get("abs_src") and not scen.get("rev_src") and scen.get("extra") in (None, "", "recorder", "recorder2", "subdir", "emptyparam-setout", "prepend") \
+    if graph not in ("tasks", "slots", "tasks2wf", "nested", "gjoin", "gjoin2", "gjoin5") and mode == "dpor" and not job.get("crash") and not job.get("race") and not scen.get("abs_src") and not scen.get("rev_src") and scen.get("extra") in (None, "", "recorder", "recorder2", "subdir", "emptyparam-setout", "prepend") \
             and not job.get("seed_dir") and job.get("omit_edge") is None and not job.get("omit_fromstr") and not job.get("drop_proc") and not job.get("force_order") and not job.get("fault") and not job.get("external"):
         # (failing runs are not compared natively: os.Exit does not kill the task's child processes,
         # which the model's process-group kill does)
@@ -451,6 +451,10 @@ def plan_c08(tier, seed):
     # when the last task has started, i.e. after tasks 1..5 went through the other slot; two out-ports
     jobs.append(wf("C08", "g7d", 7, 1, 2, oracles=o, tier=tier, events_dep=False, extra="recorder-bfl", mode="delay", delay=0, id="C08-g7d-i7-m2-slow-head-task-delay0"))
     jobs.append(wf("C08", "g7d", 7, 2, 2, oracles=o, tier=tier, events_dep=False, extra="recorder-bfl", mode="delay", delay=1, budget=20, id="C08-g7d-i7-b2-m2-slow-head-task-delay1"))
+    # a LONG backlog (21 items, 2 slots) behind the third task, after two items were forwarded: the queue of started tasks grows
+    # well beyond any initial capacity while its head is not its first slot
+    jobs.append(wf("C08", "g2", 21, 1, 2, oracles=o, tier=tier, events_dep=False, extra="recorder-b3l", mode="delay", delay=0, budget=30, id="C08-g2-i21-m2-long-backlog-behind-third-task-delay0"))
+    jobs.append(wf("C08", "g2", 21, 2, 2, oracles=o, tier=tier, events_dep=False, extra="recorder-b3l", mode="delay", delay=1, budget=25, id="C08-g2-i21-b2-m2-long-backlog-behind-third-task-delay1"))
     # more input sets than a process has room for at once (buffer 1): four and five items behind each other
     add("g2", 4, 1, 2, mode="delay", delay=1, id="C08-g2-i4-b1-m2-delay1"); add("g2", 5, 1, 3, mode="delay", delay=1, id="C08-g2-i5-b1-m3-delay1")
     add("g7", 2, 1, 2, id="C08-g7-i2-m2-two-out-ports"); add("g7", 3, 1, 3, id="C08-g7-i3-m3-two-out-ports")
@@ -879,6 +883,8 @@ def plan_c01(tier, seed):
         # restarted in place and after cleanup - bytes of the killed command must never reach the final path
         # real bash: the shell of a command exits while a process substitution of it still writes a declared output
         jobs.append({"id": "C01-real-bash-process-substitution", "prop": "C01", "kind": "procsub", "mode": "single", "budget": 60, "oracles": [], "events_dep": False, "force_all": -1, "args": {}})
+        # a command that makes its output a symbolic link (to a file with an absolute path): published by one rename like any other output
+        jobs.append(with_delay_fallback(wf("C01", "g3", 1, 1, 1, "cmd", oracles=o + ["clean", "c04"], tier=tier, events_dep=False, crash=True, disk_dep=True, extra="linkout", id="C01-crash-g3-output-is-a-symbolic-link")))
         aj = wf("C01", "g2", 1, 1, 1, "cmd", oracles=o + ["clean"], tier=tier, events_dep=False, crash=True, disk_dep=True, extra="appendout", id="C01-crash-g2-appending-command")
         aj["_snap"] = True
         aj["snap_dir"] = os.path.join(ctx["scratch"], "snaps", aj["id"])
